@@ -258,6 +258,14 @@ impl<'a> CompilerState<'a> {
         line_number
     }
 
+    fn parse_array_size(&self, pairs: Pairs<'a, Rule>, start: usize) -> Result<usize, Error> {
+        let size = self.parse_calc(pairs)?;
+        if size < 0 {
+            return Err(self.syntax_error("The size of an array can't be negative", start));
+        }
+        Ok(size as usize)
+    }
+
     pub fn syntax_error(&self, message: &str, loc: usize) -> Error {
         let line_number = self.line_of(loc);
         let included_in = self.mapped_lines[line_number]
@@ -1236,7 +1244,7 @@ impl<'a> CompilerState<'a> {
                             Rule::array_spec => {
                                 start = p.as_span().start();
                                 if let Some(px) = p.into_inner().next() {
-                                    size = Some(self.parse_calc(px.into_inner())? as usize);
+                                    size = Some(self.parse_array_size(px.into_inner(), start)?);
                                 }
                                 if var_type == VariableType::Char {
                                     var_type = VariableType::CharPtr;
@@ -1753,7 +1761,7 @@ impl<'a> CompilerState<'a> {
                                     Rule::array_spec => {
                                         start = p.as_span().start();
                                         if let Some(px) = p.into_inner().next() {
-                                            size = Some(self.parse_calc(px.into_inner())? as usize);
+                                            size = Some(self.parse_array_size(px.into_inner(), start)?);
                                         }
                                         if var_type == VariableType::Char {
                                             var_type = VariableType::CharPtr;
@@ -2072,7 +2080,7 @@ impl<'a> CompilerState<'a> {
                                 Rule::array_spec => {
                                     start = pair.as_span().start();
                                     if let Some(px) = pair.into_inner().next() {
-                                        size = Some(self.parse_calc(px.into_inner())? as usize);
+                                        size = Some(self.parse_array_size(px.into_inner(), start)?);
                                     }
                                     if var_type == VariableType::Char {
                                         var_type = VariableType::CharPtr;
